@@ -188,6 +188,9 @@ func (loc *Location) init(ctx *Context) error {
 }
 
 func (loc *Location) StateSize(ctx *Context) (int, error) {
+	if !loc.Enabled(ctx) {
+		return 0, fmt.Errorf("Location is disabled.")
+	}
 	if err := loc.CheckRead(ctx); err != nil {
 		return 0, err
 	}
